@@ -198,10 +198,31 @@ def run(chk):
     for r in early:
         g = [(fsc.norm(e, subst=False), p) for e, p in fsc.facts_at(r)]
         v = r.value
-        if isinstance(v, ast.Name) and folder.try_fold(fsc.one_def(v.id) or ast.Name(id="?", ctx=ast.Load()), sc, 1) is None or (isinstance(v, ast.Constant) and v.value is None) or v is None:
+        vd = fsc.raw_def_at(v.id, r) if isinstance(v, ast.Name) else None
+        if isinstance(v, ast.Name) and vd is not None and isinstance(vd, ast.Call) and dotted(vd.func) == "self.responses.get":
+            chk.ok("R5", f"{L}:LssMaster.__send_command | returns the queued response", sc_f.loc(r), src(vd))
+            continue
+        if isinstance(v, ast.Name) and vd is None:
+            chk.bad("R5", f"{L}:LssMaster.__send_command | `return {v.id}`", sc_f.loc(r), f"`{v.id}` is not uniquely defined here (neither None nor the queued response)")
+            continue
+        if isinstance(v, ast.Name) and folder.try_fold(vd, sc, 1) is None or (isinstance(v, ast.Constant) and v.value is None) or v is None:
             ok = any((not p and t in (fsc.canon("bool(message[0] in ListMessageNeedResponse)"), fsc.canon("message[0] in ListMessageNeedResponse")))
                      or (p and t == fsc.canon("message[0] not in ListMessageNeedResponse")) for t, p in g)
             chk.check(ok, "R5", f"{L}:LssMaster.__send_command | no answer awaited only for unconfirmed services", sc_f.loc(r), f"returns without a response under {g}")
+    # a confirmed service always waits for the answer: every normal path either takes the "unconfirmed" edge or reads the queue
+    get_nodes = [n_ for n_ in fsc.cfg.nodes if node_calls(n_, "self.responses.get")]
+    chk.floor("R5", len(get_nodes), 1, "responses.get in __send_command")
+
+    def unconfirmed_edge(n_, lab):
+        if n_.kind != "test":
+            return False
+        t = fsc.norm(n_.ast, subst=False)
+        pos = (fsc.canon("bool(message[0] in ListMessageNeedResponse)"), fsc.canon("message[0] in ListMessageNeedResponse"))
+        neg = (fsc.canon("message[0] not in ListMessageNeedResponse"), fsc.canon("not bool(message[0] in ListMessageNeedResponse)"), fsc.canon("not message[0] in ListMessageNeedResponse"))
+        return (t in pos and lab == "F") or (t in neg and lab == "T")
+    wit = must_pass(fsc.cfg, lambda n_: n_ in get_nodes, skip_edge=unconfirmed_edge)
+    chk.check(wit is None, "R5", f"{L}:LssMaster.__send_command | a confirmed service waits for its answer", sc_f.loc(),
+              f"a path for a service in ListMessageNeedResponse returns without reading the response queue: {path_text(wit) if wit else ''}")
     for name, cs_expect, fmt_expect, ret in (("__send_inquire_node_id", "CS_INQUIRE_NODE_ID", "<BB", "current_node_id"),
                                              ("__send_inquire_lss_address", "req_cs", "<BI", "part_of_address"),
                                              ("__send_configure", "req_cs", "<BB", None)):
@@ -324,6 +345,27 @@ def _fast_scan(chk, repo, folder, sc):
             chk.check(ok, "R6", f"{L}:LssMaster.fast_scan | gives up only when the confirm probe is unanswered", f.loc(r),
                       f"`return (False, None)` under `{src(ig) if ig is not None else '?'}`: silence on the 32 bit probes is the legal answer of a slave whose identity part is "
                       f"all ones; only the confirm probe (bit check 0, after LSSNext advanced) decides")
+    # the initial probe decides between "no unconfigured slave" and the scan
+    if calls and succ:
+        first = calls[0]
+        ifs = [n for n in own_nodes(f.node) if isinstance(n, ast.If) and any(x is first for x in ast.walk(n.test))]
+        okp = False
+        why = "the first probe is not the test of an if statement"
+        if len(ifs) == 1:
+            i0 = ifs[0]
+            pos = i0.test is first
+            neg = isinstance(i0.test, ast.UnaryOp) and isinstance(i0.test.op, ast.Not) and i0.test.operand is first
+            in_body = any(x is succ[0] for b in i0.body for x in ast.walk(b))
+            in_else = any(x is succ[0] for b in i0.orelse for x in ast.walk(b))
+            if pos:
+                okp = in_body
+            elif neg:
+                okp = in_else or (not in_body and always_exits(i0.body))
+            why = f"`if {src(i0.test)[:60]}`: the scan and its success result are on the {'answered' if okp else 'unanswered'} side"
+        chk.check(okp, "R6", f"{L}:LssMaster.fast_scan | the scan runs exactly when the initial probe is answered", f.loc(first), why)
+    wit = must_pass(ff.cfg, lambda n_: n_.kind == "stmt" and isinstance(n_.ast, ast.Return))
+    chk.check(wit is None, "R6", f"{L}:LssMaster.fast_scan | every outcome is an explicit (found, identity) pair", f.loc(),
+              f"a path falls off the end and returns None: {path_text(wit) if wit else ''}")
     for r in succ:
         if outer:
             lp = [n for n in ff.cfg.nodes if n.kind == "test" and n.ast is outer[0].test]
